@@ -176,6 +176,19 @@ def punct_kw_ok(k: int, kw: int, a: int, b: int, slash: bool) -> bool:
     return _run(doc, path)
 
 
+def set_member_ok(k: int, slash: bool, via: int) -> bool:
+    """A !!set member holding an escapable character, reached by key / wildcard / search, reports a path that re-resolves."""
+    from vf.common import cset
+    member = PKEYS[k]
+    doc = cmap(("hosts", cmap(("prod", cset(member, "plain")))), ("n", 1))
+    esc = YAMLPath.escape_path_section(member, PathSeparators.FSLASH if slash else PathSeparators.DOT)
+    sep = "/" if slash else "."
+    base = ("/hosts/prod" if slash else "hosts.prod")
+    path = [base + sep + esc, base + sep + "*", base + "[.^a]"][via]
+    note(member=member, path=path)
+    return _run(doc, path)
+
+
 QUICK = [("AOH3", "kw_haschild"), ("AOHX", "kw_nhaschild"), ("AOH3", "p_parent"), ("AOH3", "p"), ("AOHX", "kw_maxp"),
          ("L3", "kw_max"), ("AOH3", "idx_p_parent"), ("HOH", "star_parent"), ("MM", "p_parent"),
          ("AOH3", "p_parent_n"), ("L3", "idx"), ("ML3", "el_gt"), ("AOHX", "at_gt"), ("AOHD", "deep_p"), ("MM", "deep"),
@@ -233,6 +246,10 @@ def shards(tier, seed):
                          [("k", "int"), ("a", "int"), ("b", "int"), ("slash", "bool")],
                          ["0 <= k < %d" % len(PKEYS), "-1 <= a <= 1 and -1 <= b <= 1"], family="punct_kw", budget=900,
                          desc="keyword #%d over a hash of hashes whose child keys hold an escapable character" % kw))
+    for via in range(3):
+        out.append(shard(PID, "set_member/%d" % via, "harness.c02", "set_member_ok(k, slash, %d)" % via,
+                         [("k", "int"), ("slash", "bool")], ["0 <= k < %d" % len(PKEYS)], family="set_member", budget=900,
+                         kind="S", desc="!!set member with an escapable character via %s" % ["key", "wildcard", "search"][via]))
     pt = ["star", "key_sw", "deep"] if tier == "quick" else ["star", "deep", "key_sw", "aoh_star", "deep_root"]
     for t in pt:
         out.append(shard(PID, "punct/%s" % t, "harness.c02", "punct_ok(k, %r, a, slash)" % t,
